@@ -6,6 +6,7 @@
     (Model/AuthCheck.v part B), NOT proved.
     Only statements here; proofs are in Proofs/Auth.v and Proofs/AuthMonitor.v. *)
 From Teleport Require Import Base.Bytes Base.Outcome Model.Auth Model.AuthCheck Proofs.Auth Proofs.AuthMonitor.
+From Teleport Require Gen.SysAbiGen.
 
 Section C06.
   Variables (D HD PK AK : Type).               (* lower state, header, rest of MsgRecvPacket / MsgAcknowledgement *)
@@ -265,3 +266,11 @@ Example C06_plain_ack_needs_no_relayer :
   snd (ex_step s1 (ackm (B "mallory") (B "teleport"))) = true /\
   snd (ex_step ex_s0 (ackm (B "mallory") (B "teleport"))) = false.
 Proof. vm_compute. repeat split; reflexivity. Qed.
+
+(** ** System contracts (NOT proved: exhaustive enumeration on the byte code)
+    The only proof obligation here ties the enumeration to the ABIs of the current tree: the
+    privileged / unprivileged classification used by the enumeration check covers EVERY non-view
+    method of the regenerated inventory (Gen/SysAbiGen.v) and names no method that does not exist —
+    a method added to (or removed from) an ABI breaks this obligation. *)
+Example C06_abi_classified : abi_classified Gen.SysAbiGen.sys_nonview_methods = true.
+Proof. vm_compute. reflexivity. Qed.
